@@ -12,7 +12,7 @@ namespace ProcStack
 open PMF
 
 def WF : List Pid → List (List Pid) → List Op → Prop
-  | _, _, [] => True
+  | _, sv, [] => sv = []       -- when the coroutine ends no scope is open
   | s, sv, .push p :: c => WF (p :: s) (s :: sv) c
   | s, sv, .pop p _ :: c => ∃ s' sv', s = p :: s' ∧ sv = s' :: sv' ∧ WF s' sv' c
   | s, sv, .obs p k :: c => (k.inScope = true → current s = some p) ∧ WF s sv c
@@ -22,7 +22,7 @@ def WF : List Pid → List (List Pid) → List Op → Prop
   | s, sv, .launch _ _ :: c => WF s sv c
   | s, sv, .execute _ _ :: c => WF s sv c
   | s, sv, .inline p _ :: c => current s = some p ∧ WF s sv c     -- the handler of the awaiting code will run in `p`'s scope
-  | s, sv, .handler p :: c => current s = some p ∧ WF s sv c
+  | s, sv, .handler p s0 _ :: c => s = s0 ∧ current s = some p ∧ WF s sv c
   | s, sv, .throw :: c => WF s sv c    -- over-approximation: what follows is well-scoped whether the raise falls through or not
 
 /-- operations that user code of `p` may perform inside its scope: no push/pop of its own, samples are `p`'s -/
@@ -31,7 +31,7 @@ def Op.neutral (p : Pid) : Op → Bool
   | .pop _ _ => false
   | .obs q _ => q == p
   | .inline q _ => q == p
-  | .handler _ => false
+  | .handler _ _ _ => false
   | _ => true
 
 theorem wf_neutral_append {p : Pid} {s : List Pid} {sv : List (List Pid)} (c1 c2 : List Op)
@@ -44,7 +44,7 @@ theorem wf_neutral_append {p : Pid} {s : List Pid} {sv : List (List Pid)} (c1 c2
     cases op with
     | push q => simp [Op.neutral] at hop
     | pop q e => simp [Op.neutral] at hop
-    | handler q => simp [Op.neutral] at hop
+    | handler q s0 a => simp [Op.neutral] at hop
     | inline q k =>
       simp only [Op.neutral, beq_iff_eq] at hop
       subst hop
@@ -132,9 +132,9 @@ theorem wf_stepperOps_append (p : Pid) (steps : List Step) (s : List Pid) (sv : 
   apply wf_hooks_append p _ _ (transitionHooks_lifecycle _ _)
   exact wf_stepsOps p steps s sv rest h2
 
-theorem wf_stepperOps (p : Pid) (steps : List Step) (s : List Pid) (sv : List (List Pid)) :
-    WF s sv (stepperOps p steps) := by
-  simpa using wf_stepperOps_append p steps s sv [] (by simp [WF])
+theorem wf_stepperOps (p : Pid) (steps : List Step) (s : List Pid) :
+    WF s [] (stepperOps p steps) := by
+  simpa using wf_stepperOps_append p steps s [] [] (by simp [WF])
 
 /-- **a BaseException raised anywhere in well-scoped code leaves well-scoped code**: with `d` not-yet-entered scopes
 skipped so far (their entries are the top `d` elements of the symbolic stack), `unwind` keeps exactly the exits of the open
@@ -143,7 +143,7 @@ runs on the stack of the scope that contains the `try`. -/
 theorem wf_unwind (how : Exit) (c : List Op) : ∀ (d : Nat) (s : List Pid) (sv : List (List Pid)),
     WF s sv c → WF (s.drop d) (sv.drop d) (unwind how d c) := by
   induction c with
-  | nil => intro d s sv _; simp [unwind, WF]
+  | nil => intro d s sv h; simp only [WF] at h; simp [unwind, WF, h]
   | cons op c ih =>
     intro d s sv h
     cases op with
@@ -160,11 +160,11 @@ theorem wf_unwind (how : Exit) (c : List Op) : ∀ (d : Nat) (s : List Pid) (sv 
       | succ d =>
         subst hs hsv
         simpa [unwind] using ih d _ _ hw
-    | handler p =>
+    | handler p s0 a =>
       simp only [WF] at h
       cases d with
-      | zero => simpa [unwind, WF, Kind.inScope] using h
-      | succ d => simpa [unwind] using ih (d + 1) _ _ h.2
+      | zero => simpa [unwind, WF] using h
+      | succ d => simpa [unwind] using ih (d + 1) _ _ h.2.2
     | obs p k => simp only [WF] at h; simpa [unwind] using ih d _ _ h.2
     | inline p k => simp only [WF] at h; simpa [unwind] using ih d _ _ h.2
     | yield => simp only [WF] at h; simpa [unwind] using ih d _ _ h
@@ -178,7 +178,7 @@ theorem wf_unwind (how : Exit) (c : List Op) : ∀ (d : Nat) (s : List Pid) (sv 
 theorem wf_toHandler (c : List Op) : ∀ (d : Nat) (s : List Pid) (sv : List (List Pid)),
     WF s sv c → WF (s.drop d) (sv.drop d) (toHandler d c) := by
   induction c with
-  | nil => intro d s sv _; simp [toHandler, WF]
+  | nil => intro d s sv h; simp only [WF] at h; simp [toHandler, WF, h]
   | cons op c ih =>
     intro d s sv h
     cases op with
@@ -193,10 +193,10 @@ theorem wf_toHandler (c : List Op) : ∀ (d : Nat) (s : List Pid) (sv : List (Li
         obtain ⟨s', sv', hs, hsv, hw⟩ := h
         subst hs hsv
         simpa [toHandler] using ih d _ _ hw
-    | handler p =>
+    | handler p s0 a =>
       cases d with
       | zero => simpa [toHandler] using h
-      | succ d => simp only [WF] at h; simpa [toHandler] using ih (d + 1) _ _ h.2
+      | succ d => simp only [WF] at h; simpa [toHandler] using ih (d + 1) _ _ h.2.2
     | obs p k => simp only [WF] at h; simpa [toHandler] using ih d _ _ h.2
     | inline p k => simp only [WF] at h; simpa [toHandler] using ih d _ _ h.2
     | yield => simp only [WF] at h; simpa [toHandler] using ih d _ _ h
@@ -206,8 +206,8 @@ theorem wf_toHandler (c : List Op) : ∀ (d : Nat) (s : List Pid) (sv : List (Li
     | execute a b => simp only [WF] at h; simpa [toHandler] using ih d _ _ h
     | throw => simp only [WF] at h; simpa [toHandler] using ih d _ _ h
 
-theorem wf_cbOps (p : Pid) (code : List Act) (s : List Pid) (sv : List (List Pid)) : WF s sv (cbOps p code) := by
-  have := wf_runTask p (codeOps p true code) (s := s) (sv := sv) [] (codeOps_neutral p true code) (by simp [WF])
+theorem wf_cbOps (p : Pid) (code : List Act) (s : List Pid) : WF s [] (cbOps p code) := by
+  have := wf_runTask p (codeOps p true code) (s := s) (sv := []) [] (codeOps_neutral p true code) (by simp [WF])
   simpa [cbOps] using this
 
 /-! ## The invariant -/
@@ -216,6 +216,7 @@ structure Inv (σ : State) : Prop where
   tasks : ∀ T ∈ σ.tasks, WF T.stack T.saved T.code
   log : ∀ o ∈ σ.log, o.kind.inScope = true → o.cur = some o.owner
   scopes : ∀ x ∈ σ.scopes, x.after = x.before
+  joins : ∀ j ∈ σ.joins, j.after = j.before ∧ current j.after = some j.pid
   noAssert : σ.err ≠ some .scopeAssertion
 
 theorem forall_mem_set {α} {P : α → Prop} {l : List α} {i : Nat} {a : α}
@@ -242,12 +243,12 @@ theorem spawnProcess_inv {σ σ' : State} {t u : Tid} {stack : List Pid} {cls : 
   · simp at hs
   · simp only [Option.some.injEq, Prod.mk.injEq] at hs
     obtain ⟨rfl, _⟩ := hs
-    refine ⟨?_, ?_, h.scopes, h.noAssert⟩
+    refine ⟨?_, ?_, h.scopes, h.joins, h.noAssert⟩
     · intro T hT
       simp only [List.mem_append, List.mem_singleton] at hT
       rcases hT with hT | rfl
       · exact h.tasks T hT
-      · exact wf_stepperOps _ _ _ _
+      · exact wf_stepperOps _ _ _
     · exact logHooks_inv _ _ _ _ _ (transitionHooks_lifecycle _ _) h.log
 
 theorem spawnProcess_scn {σ σ' : State} {t u : Tid} {stack : List Pid} {cls : Nat}
@@ -267,7 +268,7 @@ theorem spawnProcess_scn {σ σ' : State} {t u : Tid} {stack : List Pid} {cls : 
 theorem exec1_inv {σ : State} (t : Tid) (h : Inv σ) : Inv (exec1 σ t).1 := by
   unfold exec1
   split
-  · exact ⟨h.tasks, h.log, h.scopes, by simp⟩
+  · exact ⟨h.tasks, h.log, h.scopes, h.joins, by simp⟩
   · rename_i T hT
     have hmem : T ∈ σ.tasks := List.mem_of_getElem? hT
     have hwf := h.tasks T hmem
@@ -278,12 +279,12 @@ theorem exec1_inv {σ : State} (t : Tid) (h : Inv σ) : Inv (exec1 σ t).1 := by
       split
       · -- push
         simp only [WF] at hwf
-        exact ⟨forall_mem_set h.tasks hwf, h.log, h.scopes, h.noAssert⟩
+        exact ⟨forall_mem_set h.tasks hwf, h.log, h.scopes, h.joins, h.noAssert⟩
       · -- pop
         simp only [WF] at hwf
         obtain ⟨s', sv', hs, hsv, hw⟩ := hwf
         split
-        · refine ⟨forall_mem_set h.tasks (by simpa [hs, hsv] using hw), h.log, ?_, h.noAssert⟩
+        · refine ⟨forall_mem_set h.tasks (by simpa [hs, hsv] using hw), h.log, ?_, h.joins, h.noAssert⟩
           intro x hx
           simp only [List.mem_cons] at hx
           rcases hx with rfl | hx
@@ -293,55 +294,67 @@ theorem exec1_inv {σ : State} (t : Tid) (h : Inv σ) : Inv (exec1 σ t).1 := by
           simp [hs, current] at hne
       · -- obs
         simp only [WF] at hwf
-        refine ⟨forall_mem_set h.tasks hwf.2, ?_, h.scopes, h.noAssert⟩
+        refine ⟨forall_mem_set h.tasks hwf.2, ?_, h.scopes, h.joins, h.noAssert⟩
         intro o ho hk
         simp only [List.mem_cons] at ho
         rcases ho with rfl | ho
         · exact hwf.1 hk
         · exact h.log o ho hk
       · simp only [WF] at hwf
-        exact ⟨forall_mem_set h.tasks hwf, h.log, h.scopes, h.noAssert⟩
+        exact ⟨forall_mem_set h.tasks hwf, h.log, h.scopes, h.joins, h.noAssert⟩
       · simp only [WF] at hwf
-        exact ⟨forall_mem_set h.tasks hwf, h.log, h.scopes, h.noAssert⟩
+        exact ⟨forall_mem_set h.tasks hwf, h.log, h.scopes, h.joins, h.noAssert⟩
       · -- callSoon
         simp only [WF] at hwf
         split
-        · exact ⟨h.tasks, h.log, h.scopes, by simp⟩
-        · refine ⟨?_, h.log, h.scopes, h.noAssert⟩
+        · exact ⟨h.tasks, h.log, h.scopes, h.joins, by simp⟩
+        · refine ⟨?_, h.log, h.scopes, h.joins, h.noAssert⟩
           intro T' hT'
           simp only [List.mem_append, List.mem_singleton] at hT'
           rcases hT' with hT' | rfl
           · exact forall_mem_set h.tasks hwf T' hT'
-          · exact wf_cbOps _ _ _ _
+          · exact wf_cbOps _ _ _
       · -- launch
         simp only [WF] at hwf
         split
-        · exact ⟨h.tasks, h.log, h.scopes, by simp⟩
+        · exact ⟨h.tasks, h.log, h.scopes, h.joins, by simp⟩
         · rename_i σ' u hsp
           exact spawnProcess_inv (σ := { σ with tasks := σ.tasks.set t { T with code := rest } })
-            ⟨forall_mem_set h.tasks hwf, h.log, h.scopes, h.noAssert⟩ hsp
+            ⟨forall_mem_set h.tasks hwf, h.log, h.scopes, h.joins, h.noAssert⟩ hsp
       · -- execute
         simp only [WF] at hwf
         split
-        · exact ⟨h.tasks, h.log, h.scopes, by simp⟩
+        · exact ⟨h.tasks, h.log, h.scopes, h.joins, by simp⟩
         · rename_i σ' u hsp
           have h' := spawnProcess_inv h hsp
-          exact ⟨forall_mem_set h'.tasks hwf, h'.log, h'.scopes, h'.noAssert⟩
+          exact ⟨forall_mem_set h'.tasks hwf, h'.log, h'.scopes, h'.joins, h'.noAssert⟩
       · -- inline: the child's stepping coroutine, then the handler, then the rest of the awaiting code
         simp only [WF] at hwf
         split
-        · exact ⟨h.tasks, h.log, h.scopes, by simp⟩
+        · exact ⟨h.tasks, h.log, h.scopes, h.joins, by simp⟩
         · refine ⟨forall_mem_set h.tasks ?_, logHooks_inv _ _ _ _ _ (transitionHooks_lifecycle _ _) h.log, h.scopes,
-            h.noAssert⟩
+            h.joins, h.noAssert⟩
           apply wf_stepperOps_append
           simp only [WF]
-          exact hwf
-      · -- handler reached normally
+          exact ⟨trivial, hwf⟩
+      · -- handler: reached normally, or by `unwind` (then the `except` clause samples)
         simp only [WF] at hwf
-        exact ⟨forall_mem_set h.tasks hwf.2, h.log, h.scopes, h.noAssert⟩
+        refine ⟨forall_mem_set h.tasks hwf.2.2, ?_, h.scopes, ?_, h.noAssert⟩
+        · intro o ho hk
+          split at ho
+          · simp only [List.mem_cons] at ho
+            rcases ho with rfl | ho
+            · exact hwf.2.1
+            · exact h.log o ho hk
+          · exact h.log o ho hk
+        · intro j hj
+          simp only [List.mem_cons] at hj
+          rcases hj with rfl | hj
+          · exact ⟨hwf.1, hwf.2.1⟩
+          · exact h.joins j hj
       · -- throw
         simp only [WF] at hwf
-        exact ⟨forall_mem_set h.tasks (by simpa using wf_unwind .baseException rest 0 _ _ hwf), h.log, h.scopes, h.noAssert⟩
+        exact ⟨forall_mem_set h.tasks (by simpa using wf_unwind .baseException rest 0 _ _ hwf), h.log, h.scopes, h.joins, h.noAssert⟩
 
 theorem resumable_inv {σ σ' : State} {b : Tid} (h : Inv σ) (hr : resumable σ = some (b, σ')) : Inv σ' := by
   unfold resumable at hr
@@ -357,12 +370,12 @@ theorem resumable_inv {σ σ' : State} {b : Tid} (h : Inv σ) (hr : resumable σ
         · split at hr
           · simp only [Option.some.injEq, Prod.mk.injEq] at hr
             obtain ⟨_, rfl⟩ := hr
-            exact ⟨forall_mem_set h.tasks (h.tasks B (List.mem_of_getElem? hB)), h.log, h.scopes, h.noAssert⟩
+            exact ⟨forall_mem_set h.tasks (h.tasks B (List.mem_of_getElem? hB)), h.log, h.scopes, h.joins, h.noAssert⟩
           · simp at hr
 
 theorem run_inv (n : Nat) {σ : State} (t : Tid) (h : Inv σ) : Inv (run n σ t) := by
   induction n generalizing σ t with
-  | zero => exact ⟨h.tasks, h.log, h.scopes, by simp [run]⟩
+  | zero => exact ⟨h.tasks, h.log, h.scopes, h.joins, by simp [run]⟩
   | succ n ih =>
     have h1 := exec1_inv t h
     simp only [run]
@@ -383,7 +396,7 @@ theorem deliver_inv {σ : State} (t : Tid) (h : Inv σ) : Inv (deliver σ t) := 
   · exact h
   · rename_i T hT
     split
-    · refine ⟨forall_mem_set h.tasks ?_, h.log, h.scopes, h.noAssert⟩
+    · refine ⟨forall_mem_set h.tasks ?_, h.log, h.scopes, h.joins, h.noAssert⟩
       simpa using wf_unwind .cancelled T.code 0 _ _ (h.tasks T (List.mem_of_getElem? hT))
     · exact h
 
@@ -394,34 +407,34 @@ theorem step_inv {σ : State} (e : Event) (h : Inv σ) : Inv (step σ e) := by
     split
     · exact h
     · split
-      · exact ⟨h.tasks, h.log, h.scopes, by simp⟩
+      · exact ⟨h.tasks, h.log, h.scopes, h.joins, by simp⟩
       · rename_i T hT
         split
-        · exact ⟨forall_mem_set h.tasks (h.tasks T (List.mem_of_getElem? hT)), h.log, h.scopes, h.noAssert⟩
-        · exact ⟨h.tasks, h.log, h.scopes, by simp⟩
+        · exact ⟨forall_mem_set h.tasks (h.tasks T (List.mem_of_getElem? hT)), h.log, h.scopes, h.joins, h.noAssert⟩
+        · exact ⟨h.tasks, h.log, h.scopes, h.joins, by simp⟩
   | tick t =>
     simp only [step]
     split
     · exact h
     · split
       · exact run_inv _ t (deliver_inv t h)
-      · exact ⟨h.tasks, h.log, h.scopes, by simp⟩
+      · exact ⟨h.tasks, h.log, h.scopes, h.joins, by simp⟩
   | resume t =>
     simp only [step]
     split
     · exact h
     · split
-      · exact ⟨h.tasks, h.log, h.scopes, by simp⟩
+      · exact ⟨h.tasks, h.log, h.scopes, h.joins, by simp⟩
       · rename_i T hT
         split
-        · exact ⟨forall_mem_set h.tasks (h.tasks T (List.mem_of_getElem? hT)), h.log, h.scopes, h.noAssert⟩
-        · exact ⟨h.tasks, h.log, h.scopes, by simp⟩
+        · exact ⟨forall_mem_set h.tasks (h.tasks T (List.mem_of_getElem? hT)), h.log, h.scopes, h.joins, h.noAssert⟩
+        · exact ⟨h.tasks, h.log, h.scopes, h.joins, by simp⟩
   | kill t =>
     simp only [step]
     split
     · exact h
     · split
-      · exact ⟨h.tasks, h.log, h.scopes, by simp⟩
+      · exact ⟨h.tasks, h.log, h.scopes, h.joins, by simp⟩
       · rename_i T hT
         split
         · split
@@ -430,27 +443,27 @@ theorem step_inv {σ : State} (e : Event) (h : Inv σ) : Inv (step σ e) := by
             rw [hcode] at hwf
             simp only [WF] at hwf
             obtain ⟨s', sv', hs, hsv, hw⟩ := hwf
-            refine ⟨forall_mem_set h.tasks ?_, h.log, h.scopes, h.noAssert⟩
+            refine ⟨forall_mem_set h.tasks ?_, h.log, h.scopes, h.joins, h.noAssert⟩
             simp only [WF]
             refine ⟨s', sv', hs, hsv, ?_⟩
             exact wf_hooks_append p _ (s := s') (sv := sv') _ (transitionHooks_lifecycle _ _)
               (by simpa using wf_toHandler _ 0 _ _ hw)
-          · exact ⟨h.tasks, h.log, h.scopes, by simp⟩
-        · exact ⟨h.tasks, h.log, h.scopes, by simp⟩
+          · exact ⟨h.tasks, h.log, h.scopes, h.joins, by simp⟩
+        · exact ⟨h.tasks, h.log, h.scopes, h.joins, by simp⟩
   | callSoon p cb =>
     simp only [step]
     split
     · exact h
     · split
-      · exact ⟨h.tasks, h.log, h.scopes, by simp⟩
+      · exact ⟨h.tasks, h.log, h.scopes, h.joins, by simp⟩
       · split
-        · refine ⟨?_, h.log, h.scopes, h.noAssert⟩
+        · refine ⟨?_, h.log, h.scopes, h.joins, h.noAssert⟩
           intro T hT
           simp only [List.mem_append, List.mem_singleton] at hT
           rcases hT with hT | rfl
           · exact h.tasks T hT
-          · exact wf_cbOps _ _ _ _
-        · exact ⟨h.tasks, h.log, h.scopes, by simp⟩
+          · exact wf_cbOps _ _ _
+        · exact ⟨h.tasks, h.log, h.scopes, h.joins, by simp⟩
 
 theorem runEvents_inv {σ : State} (es : List Event) (h : Inv σ) : Inv (runEvents σ es) := by
   induction es generalizing σ with
@@ -463,12 +476,12 @@ theorem initTop_inv {σ : State} (top : List Nat) (h : Inv σ) : Inv (initTop σ
   | cons c top ih =>
     simp only [initTop]
     split
-    · exact ⟨h.tasks, h.log, h.scopes, by simp⟩
+    · exact ⟨h.tasks, h.log, h.scopes, h.joins, by simp⟩
     · rename_i σ' u hsp
       exact ih (spawnProcess_inv h hsp)
 
 theorem init_inv (scn : Scenario) (top : List Nat) : Inv (init scn top) :=
-  initTop_inv top ⟨by simp, by simp, by simp, by simp⟩
+  initTop_inv top ⟨by simp, by simp, by simp, by simp, by simp⟩
 
 /-- every reachable state satisfies the invariant, for every scenario and every order of ticks -/
 theorem reachable_inv (scn : Scenario) (top : List Nat) (es : List Event) : Inv (runEvents (init scn top) es) :=
